@@ -99,7 +99,10 @@ def get_all(p, t, **kw):
     from chython.containers import QueryContainer
     if isinstance(p, QueryContainer):
         kw['_cython'] = False
-    return [tup(x) for x in p.get_mapping(t, **kw)]
+    # collect the yielded dict objects FIRST and convert afterwards: a caller that keeps the results must see distinct, final mappings
+    # (a generator that reuses / mutates a yielded dict is a defect that eager conversion would hide)
+    got = list(p.get_mapping(t, **kw))
+    return [tup(x) for x in got]
 
 
 def connected_subsets(bonds, kmax):
